@@ -84,6 +84,6 @@ TVerdict ==
     [gid |-> gid,
      dL |-> FirstDiff(outL, Given[gid].obsL), dB |-> FirstDiff(outB, Given[gid].obsB),
      nL |-> Len(outL), outL |-> outL, outB |-> outB, gta |-> GreedyTailAligned, align |-> lay[root].align, kind |-> lay[root].kind,
-     size |-> lay[root].size]
+     size |-> lay[root].size, ust |-> ust]
 TDump == phase = "done" => PrintT("TV " \o ToJson(TVerdict))
 =============================================================================
